@@ -317,13 +317,66 @@ func longListScenario(random bool, n int) *vsched.Scenario {
 	}
 }
 
+// shapeSweepScenario: every (list length, pool size) pair up to a bound, one default-schedule run each (a
+// declared smoke run): how the work is divided among the workers is arithmetic on the two numbers, and an
+// uneven division (5 elements over 4 workers) is a shape the exhaustively explored small lists do not have.
+func shapeSweepScenario(random bool, maxN int) *vsched.Scenario {
+	fam := "pmap-shape-sweep"
+	var bad []string
+	done := 0
+	return &vsched.Scenario{
+		Name:      fmt.Sprintf("pmap/shape-sweep-to-%d/random=%v", maxN, random),
+		Bound:     0,
+		FirstOnly: true,
+		MaxSteps:  20000000,
+		Body: func() {
+			bad, done = nil, 0
+			for n := 0; n <= maxN; n++ {
+				list := make([]int, n)
+				for i := range list {
+					list[i] = i + 1
+				}
+				for pool := 1; pool <= n+2; pool++ {
+					applied := make([]int, n+2)
+					res := fpgo.PMap(func(v int) int { applied[v]++; return v * 10 }, &fpgo.PMapOption{FixedPool: pool, RandomOrder: random}, list...)
+					got := append([]int{}, res...)
+					if random {
+						sort.Ints(got)
+					}
+					ok := len(got) == n
+					for i := 0; ok && i < n; i++ {
+						ok = got[i] == (i+1)*10 && applied[i+1] == 1
+					}
+					if !ok {
+						bad = append(bad, fmt.Sprintf("len %d pool %d: result %v, applications per element %v", n, pool, res, applied[1:n+1]))
+					}
+					done++
+				}
+			}
+		},
+		Check: func(r *vsched.Result) []vsched.Failure {
+			fs := e1.Basic("C16", fam, r, nil)
+			if len(fs) > 0 {
+				return fs
+			}
+			if r.Cap != "" {
+				return append(fs, e1.Fail("C16|"+fam+"|no-termination", "the sweep had not finished after %s (%d calls returned)", r.Cap, done))
+			}
+			if len(bad) > 0 {
+				fs = append(fs, e1.Fail("C16|"+fam+"|result", "RandomOrder=%v: %s", random, bad[0]))
+			}
+			return fs
+		},
+	}
+}
+
 func scenarios(tier string) []*vsched.Scenario {
 	var out []*vsched.Scenario
 	maxLen, b, longN := 3, 2, 3000
 	if tier == "thorough" {
 		maxLen, b, longN = 4, 3, 70000
 	}
-	out = append(out, sharedOptionScenario(false, 2), sharedOptionScenario(true, 2), payloadScenario(false, 0), payloadScenario(true, 0), longListScenario(false, longN), longListScenario(true, longN))
+	out = append(out, sharedOptionScenario(false, 2), sharedOptionScenario(true, 2), payloadScenario(false, 0), payloadScenario(true, 0), longListScenario(false, longN), longListScenario(true, longN), shapeSweepScenario(false, 12), shapeSweepScenario(true, 12))
 	for _, pool := range []int{1, 2} {
 		out = append(out, twoCallsScenario(false, pool, 1), twoCallsScenario(true, pool, 1))
 	}
